@@ -78,6 +78,7 @@ class Obj:
         self.real = None
         self.ever_cooked = False
         self.count_unknown = False
+        self.fmt = None
         self.tainted = False
         self.taint_mtimes: set = set()
         self.taint_versions: list = []
@@ -101,7 +102,13 @@ class C16(CheckBase):
                 counting[id(self)] = counting.get(id(self), 0) + 1
                 return super().cook(body)
 
+        class CountingText(zt.PageTextTemplateFile):
+            def cook(self, body):
+                counting[id(self)] = counting.get(id(self), 0) + 1
+                return super().cook(body)
+
         self.CountingFile = CountingFile
+        self.CountingText = CountingText
         self.counting = counting
         self._ref_cache: dict[str, list] = {}
         case = self.gen(Choices(1), "quick")
@@ -204,7 +211,9 @@ class C16(CheckBase):
                     (1, ch.pick(dirs) + "/" + nme),
                     (1, "missing.pt")], "spec")
                 ops.append(["load", spec, ch.pick(["render", "render",
-                                                   "names", "none"])])
+                                                   "names", "none"]),
+                            ch.weighted([(4, None), (1, "text"),
+                                         (1, "xml")])])
             elif k == "pkgload":
                 ops.append(["pkgload", ch.pick([
                     "chameleon.tests:inputs/hello_world.pt",
@@ -227,9 +236,9 @@ class C16(CheckBase):
 
     # -- reference ---------------------------------------------------------------
     def ref_render(self, world: World, v: dict, child_v: dict | None,
-                   what: str, arg=None) -> list:
+                   what: str, arg=None, fmt=None) -> list:
         """Outcome of a fresh instance on a private copy of version v."""
-        key = canonical([v, child_v, what, arg])
+        key = canonical([v, child_v, what, arg, fmt])
         r = self._ref_cache.get(key)
         if r is not None:
             return r
@@ -245,7 +254,9 @@ class C16(CheckBase):
                 with real.open(os.path.join(d, v["callee"]), "w") as f:
                     f.write(content(child_v))
             try:
-                t = self.zt.PageTemplateFile(os.path.join(d, "t.pt"))
+                cls = self.zt.PageTextTemplateFile if fmt == "text" \
+                    else self.zt.PageTemplateFile
+                t = cls(os.path.join(d, "t.pt"))
                 if what == "render":
                     r = ["ok", t.render(x="X<1>")]
                 elif what == "names":
@@ -334,7 +345,7 @@ class C16(CheckBase):
                 default_extension=case["default_extension"],
                 auto_reload=case["auto_reload"],
                 formats={"xml": self.CountingFile,
-                         "text": zt.PageTextTemplateFile})
+                         "text": self.CountingText})
         loaded: dict[str, Obj] = {}           # spec -> model object
         loaded_pkg: dict[str, object] = {}
 
@@ -370,7 +381,7 @@ class C16(CheckBase):
                 if cur is None:
                     return None, "OSError"
                 ob.compiles += 1
-                if cur[0]["flavour"] in BROKEN:
+                if cur[0]["flavour"] in BROKEN and ob.fmt != "text":
                     return None, "TemplateError"
                 ob.version = cur[0]
                 ob.ever_cooked = True
@@ -470,11 +481,13 @@ class C16(CheckBase):
                         wants.append(["exc", cexc])
                         continue
                     for cv in cvs:
-                        wants.append(self.ref_render(world, v, cv, what, arg))
+                        wants.append(self.ref_render(world, v, cv, what, arg,
+                                                     ob.fmt))
                     for w in wants[n0:]:
                         want_version[id(w)] = v
                     continue
-                wants.append(self.ref_render(world, v, None, what, arg))
+                wants.append(self.ref_render(world, v, None, what, arg,
+                                             ob.fmt))
                 want_version[id(wants[-1])] = v
             return wants
 
@@ -509,10 +522,11 @@ class C16(CheckBase):
             if cur is not None and cur[0] not in versions:
                 versions.append(cur[0])
             for v in versions:
-                if v["flavour"] in BROKEN:
+                if v["flavour"] in BROKEN and ob.fmt != "text":
                     wants.append(["exc", "TemplateError"])
                 else:
-                    wants.append(self.ref_render(world, v, None, what, arg))
+                    wants.append(self.ref_render(world, v, None, what, arg,
+                                                 ob.fmt))
             if cur is None:
                 wants.append(["exc", "OSError"])
             check(i, op, got, wants, False)
@@ -524,7 +538,8 @@ class C16(CheckBase):
                 cover.add("recovered-after-fault")
                 ob.tainted = False
                 ob.seen = m
-                ob.version = None if cur[0]["flavour"] in BROKEN else cur[0]
+                ob.version = None if (cur[0]["flavour"] in BROKEN and
+                                      ob.fmt != "text") else cur[0]
                 ob.ever_cooked = True
                 ob.children.clear()
                 ob.compiles = counting.get(id(ob.real), 0)
@@ -648,18 +663,22 @@ class C16(CheckBase):
                 elif k in ("load", "absload"):
                     spec = op[1] if k == "load" else full(op[1])
                     mode = op[2] if k == "load" else "render"
-                    got = outcome(lambda: loader.load(spec))
+                    fmt = op[3] if k == "load" and len(op) > 3 else None
+                    got = outcome(lambda: loader.load(spec, fmt))
                     faulted = sum(world.fired.values()) > fired_before
-                    lo = loaded.get(spec)
+                    # (same name, other format = another template)
+                    lkey = (spec, "text" if fmt == "text" else "xml")
+                    lo = loaded.get(lkey)
                     if lo is None:
                         path, exc = resolve(spec)
                         if exc:
                             check(i, op, got, [["exc", exc]], faulted)
                             continue
                         lo = Obj(path, case["auto_reload"])
+                        lo.fmt = "text" if fmt == "text" else None
                         if got[0] == "ok":
                             lo.real = got[1]
-                            loaded[spec] = lo
+                            loaded[lkey] = lo
                     if got[0] != "ok":
                         if not faulted:
                             violations.append(self._v(
@@ -684,6 +703,14 @@ class C16(CheckBase):
                             f"the search path is {world.rel(want_fn)}"))
                         continue
                     cover.add("load-ok")
+                    want_cls = self.CountingText if fmt == "text" \
+                        else self.CountingFile
+                    if type(t) is not want_cls:
+                        violations.append(self._v(
+                            "loader-format", i, op,
+                            f"load({world.rel(spec)!r}, {fmt!r}) returned a "
+                            f"{type(t).__name__}"))
+                        continue
                     log.add("op", i, "load", world.rel(spec), world.rel(str(t.filename)))
                     if mode == "none":
                         continue
